@@ -542,12 +542,13 @@ theorem number_string_roundtrip_prim {x : Num} (hx : Canonical x) (radix : Optio
 /-- the literal a value is written back as (constant folder, `quote`) reads back as the same value. -/
 theorem literal_roundtrip {x : Num} (hx : Canonical x) : litToNum (numToLit x) = .ok x := litToNum_numToLit hx
 
-/-- reading never produces a non-canonical value: whatever `string->number` returns for a text of the form
-`number->string` produces is canonical (it IS the canonical `x`); for arbitrary literals see `literal_canonical`. -/
-theorem literal_canonical (n : Int) {d : Int} (hd : 0 < d) : ∃ v, litToNum (.rat n d) = .ok v ∧ Canonical v ∧
+/-- reading never produces a non-canonical value: a ratio literal with a positive denominator becomes the canonical
+value of the fraction (either configuration of the zero-denominator guard). -/
+theorem literal_canonicalC (c : Bool) (n : Int) {d : Int} (hd : 0 < d) : ∃ v, litToNumC c (.rat n d) = .ok v ∧ Canonical v ∧
     denote v = (n : Rat) / (d : Rat) := by
   have hd0 : d ≠ 0 := by omega
-  simp only [litToNum]
+  have hdb : (d == 0) = false := by simp [hd0]
+  simp only [litToNumC]
   by_cases hs : (fitsIsize n && fitsIsize d) = true
   · simp only [hs, ↓reduceIte, hd0]
     by_cases hf : (fitsI32 n && fitsI32 d) = true
@@ -560,16 +561,32 @@ theorem literal_canonical (n : Int) {d : Int} (hd : 0 < d) : ∃ v, litToNum (.r
     · simp only [hf]
       obtain ⟨v, hv, hden, hcan⟩ := fromQ_exact (n := n) hd0
       exact ⟨v, hv, hcan, hden⟩
-  · simp only [hs]
+  · simp only [hs, hdb, Bool.and_false, Bool.false_eq_true, ↓reduceIte]
     obtain ⟨v, hv, hden, hcan⟩ := fromQ_exact (n := n) hd0
     exact ⟨v, hv, hcan, hden⟩
 
-/-- **The code as it is violates totality here**: `string->number` on a ratio text whose numerator does not fit a
+theorem literal_canonical (n : Int) {d : Int} (hd : 0 < d) : ∃ v, litToNum (.rat n d) = .ok v ∧ Canonical v ∧
+    denote v = (n : Rat) / (d : Rat) := literal_canonicalC _ n hd
+
+/-- **The repaired conversion never panics**: a ratio literal as the parser produces it (the denominator text is unsigned,
+so `0 ≤ d`) becomes a value or the division-by-zero error; and `string->number` filters a zero denominator into `#f`
+before that (`stringToNumberC true`, see the counterexample theorem below for both behaviours side by side). -/
+theorem literal_conversion_total (n : Int) {d : Int} (hd : 0 ≤ d) : litToNumC true (.rat n d) ≠ .panic := by
+  by_cases h0 : d = 0
+  · subst h0
+    simp only [litToNumC]
+    split <;> simp
+  · obtain ⟨v, hv, _, _⟩ := literal_canonicalC true n (d := d) (by omega)
+    rw [hv]; simp
+
+/-- **The code as pinned violates totality here**: `string->number` on a ratio text whose numerator does not fit a
 fixnum and whose denominator is zero reaches `BigRational::new(_, 0)`, which panics (`parse_number` is called
 without `try_parse_number`'s zero-denominator validation, and `real_literal_to_steelval` checks only the
-`(Small, Small)` case).  Replayed on the real engine: findings/C10-K10g.txt. -/
+`(Small, Small)` case).  Replayed on the real engine: findings/C10-K10g.txt.  The repaired code answers `#f`. -/
 theorem string_to_number_zero_denominator_counterexample :
-    litToNum (.rat 100000000000000000000 0) = .panic ∧ litToNum (.rat 1 0) = .err .div0 := by decide
+    litToNumC false (.rat 100000000000000000000 0) = .panic ∧ litToNumC false (.rat 1 0) = .err .div0 ∧
+    litToNumC true (.rat 100000000000000000000 0) = .err .div0 ∧
+    stringToNumberC true none ['1', '/', '0'] = .ok none := by decide
 
 /-- Non-vacuity (theorems applied): the most negative fixnum in binary, a big ratio in hexadecimal (with `e` digits —
 an exponent marker below radix 15), radix 15, decimal. -/
@@ -797,8 +814,9 @@ model's: `op_tables_as_modelled`); folding a constant call at compile time yield
 
 NOT carried by any theorem (covered only by the differential correspondence of checks/c10.py):
 
- * **`string->number` is total**: FALSE for the code as it is (`string_to_number_zero_denominator_counterexample`,
-   finding K10g); on texts that `number->string` does not produce (upper-case digits, `+`, leading zeros, radix
+ * **`string->number` is total on every text**: FALSE for the code as pinned (`string_to_number_zero_denominator_counterexample`,
+   finding K10g; `Gen.s2nChecked`, regenerated, says which code the tree has); for the repaired code only the
+   literal → value step is proved panic-free (`literal_conversion_total`), not the parser on arbitrary text; on texts that `number->string` does not produce (upper-case digits, `+`, leading zeros, radix
    prefixes, malformed texts) the model is compared with the real primitive on a generated family, no theorem.
    `BigInt::from_str_radix` accepts `_` between digits (`"1_0"` reads as 10): not in C12's parser model.
  * **Mixed exact/inexact operations follow IEEE double arithmetic on the converted operands; comparisons of
